@@ -118,6 +118,13 @@ func c17Variant(name string) *jobSpec {
 		j.Params = map[string][]string{"variant": {"1"}}
 		j.Rules = append(append([]relRule{}, j.Rules...), relRule{Action: "replace", Source: []string{"dc"}, Regex: "(.+)", Target: "datacenter", Replacement: strp("$1")})
 	}
+	// "ja#2" / "ja#3": the same job, only its service discovery section differs
+	if strings.HasSuffix(name, "#2") {
+		j.SD = "static2"
+	}
+	if strings.HasSuffix(name, "#3") {
+		j.SD = "file"
+	}
 	return &j
 }
 
@@ -517,8 +524,13 @@ func genC17(t *rapid.T) *c17Case {
 		var out []string
 		for _, j := range rapid.Permutation(all).Draw(t, label+"-order") {
 			if rapid.IntRange(0, 2).Draw(t, label+"-"+j) != 0 {
-				if rapid.IntRange(0, 2).Draw(t, label+"-"+j+"-variant") == 0 {
+				switch rapid.IntRange(0, 5).Draw(t, label+"-"+j+"-variant") {
+				case 0, 1:
 					j += "#1"
+				case 2:
+					j += "#2"
+				case 3:
+					j += "#3"
 				}
 				out = append(out, j)
 			}
